@@ -10,7 +10,7 @@
    against the implementation. *)
 From Coq Require Import Reals List ZArith Bool.
 From Coquelicot Require Import Complex.
-From AL Require Import Base.CaseLib C12.Model C12.Spec C12.ModelR C12.Check C12.Proofs C12.ProofsR C12.ProofsQ.
+From AL Require Import Base.CaseLib C12.Model C12.Spec C12.ModelR C12.Check C12.Proofs C12.ProofsT C12.ProofsR C12.ProofsQ.
 Import ListNotations.
 
 (* the sums of the statement, spelled out *)
@@ -163,6 +163,51 @@ Theorem C12_exact_instance_dft : forall blk freqs norm,
   dft CQ_ops CQ_cx blk freqs norm = dft_spec CQ_ops CQ_cx blk freqs norm.
 Proof. exact CQ_dft_eq_spec. Qed.
 Print Assumptions C12_exact_instance_dft.
+
+(* nested filter lists (a stage is a LinearFilter, a cascade or a parallel bank, any depth):
+   the recursive freq_response equals the specification - the response of a cascade is the
+   product of its stages' responses, of a bank the sum of its branches', nan absorbing, an
+   exception anywhere below propagating *)
+Theorem C12_nested_model_eq_spec : forall t w, tree_fr CR_ops CR_cx t w = tree_spec CR_ops CR_cx t w.
+Proof. exact R_tree_fr_eq_spec. Qed.
+Print Assumptions C12_nested_model_eq_spec.
+
+(* in numbers: no empty list, no vanishing denominator -> multiply over cascades, add over banks *)
+Theorem C12_nested_fr_value : forall t w, tree_ok CR_ops CR_cx t w ->
+  tree_fr CR_ops CR_cx t w = Some (Val (tree_tf CR_ops CR_cx t w)).
+Proof. exact R_tree_fr_value. Qed.
+Print Assumptions C12_nested_fr_value.
+
+Theorem C12_nested_tf_unfold : forall l b a w,
+  tree_tf CR_ops CR_cx (TCas l) w = fold_right Cmult (RtoC 1) (map (fun s => tree_tf CR_ops CR_cx s w) l) /\
+  tree_tf CR_ops CR_cx (TPar l) w = fold_right Cplus (RtoC 0) (map (fun s => tree_tf CR_ops CR_cx s w) l) /\
+  tree_tf CR_ops CR_cx (TLin b a) w = Cdiv (tfsum b w) (tfsum a w).
+Proof. intros. repeat split. Qed.
+Print Assumptions C12_nested_tf_unfold.
+
+(* a cascade inside a cascade (bank inside a bank) has the value of the flat list *)
+Theorem C12_same_kind_nesting_flattens : forall pre inner post w,
+  tree_tf CR_ops CR_cx (TCas (pre ++ TCas inner :: post)) w = tree_tf CR_ops CR_cx (TCas (pre ++ inner ++ post)) w /\
+  tree_tf CR_ops CR_cx (TPar (pre ++ TPar inner :: post)) w = tree_tf CR_ops CR_cx (TPar (pre ++ inner ++ post)) w.
+Proof. exact R_same_kind_nesting_flattens. Qed.
+Print Assumptions C12_same_kind_nesting_flattens.
+
+Theorem C12_nested_enclosure_formula : forall t w, tree_tf CR_ops CR_cx (rtree_inj t) w = spec_tree t w.
+Proof. exact spec_tree_correct. Qed.
+Print Assumptions C12_nested_enclosure_formula.
+
+Theorem C12_exact_instance_nested : forall t (u : CQ), u <> c0 CQ_ops ->
+  tree_fr CQ_ops CQ_cx t u = tree_spec CQ_ops CQ_cx t u.
+Proof. exact CQ_tree_fr_eq_spec. Qed.
+Print Assumptions C12_exact_instance_nested.
+
+(* mixed nesting is not dissolved: (1 || 1) -> 1 is 2, not 1 * 1 * 1 *)
+Example C12_example_mixed_nesting :
+  oresp_of (tree_fr CQ_ops CQ_cx (TCas [TPar [TLin [cq 1 1 0 1] [cq 1 1 0 1]; TLin [cq 1 1 0 1] [cq 1 1 0 1]];
+                                        TLin [cq 1 1 0 1] [cq 1 1 0 1]]) (cq 3 5 4 5))
+  = OVal (cq 2 1 0 1).
+Proof. vm_compute. reflexivity. Qed.
+Print Assumptions C12_example_mixed_nesting.
 
 (* non-vacuity: 1 + z^-1 satisfies every hypothesis above at every frequency *)
 Example C12_example_nonvacuous : forall w, exists f ys h,
